@@ -747,6 +747,28 @@ class Executor(EvalMixin, StmtMixin):
             return SRef(RefS(cls), as_arith(i))
         if fname == 'idof':
             return SV(IntS, self.ev(node.args[0]).id)
+        if fname == 'assigned':
+            # assigned(obj, 'a', 'b', ...): on this path every one of these
+            # attributes of the attribute-bag object obj has been assigned
+            obj = self.ev(node.args[0])
+            names = [a.value for a in node.args[1:]]
+            have = self.bag_of(obj)
+            missing = [n for n in names if n not in have]
+            self.last_missing_attrs = missing
+            return mk_bool(not missing)
+        if fname == 'attr':
+            obj = self.ev(node.args[0])
+            name = node.args[1].value
+            have = self.bag_of(obj)
+            if name not in have:
+                # not assigned on this path: an arbitrary value (the assigned() clause reports it)
+                return SV(ValS, z3.Const(fresh_name('unassigned_' + name), Val))
+            return have[name]
+        if fname == 'dict_of':
+            from .evalexpr import VBagDict
+            v = self.ev(node.args[0])
+            obj = self.ev(node.args[1])
+            return mk_bool(isinstance(v, VBagDict) and z3.simplify(v.obj.id).eq(z3.simplify(obj.id)))
         if fname in self.world_spec_funcs():
             args = [self.ev(a) for a in node.args]
             return self.world_spec_funcs()[fname](self, *args)
